@@ -81,6 +81,17 @@ check("C10", "exploration",
       "generated (their rule formats are not exercised). Small scope: chains of at most two links.",
       "bounded exhaustive program enumeration, dynamic ground truth (label tracking in CPython) vs reported flows", "DESIGN.md §2 C10")
 
+check("C11", "exploration",
+      "Complete product: taint programs of the C10 generator (chains <=1 link incl. every broken-chain variant, all source/sink "
+      "kind combinations, both placements) x 12 rule-set variants (standard; no source / no sink / no rules; rules under a "
+      "non-matching language; unit_name matching / not; line_num matching / off by one for source and sink; sink rule naming "
+      "another argument position; rule set extended by unrelated rules) = 2130 real `run`s. Every reported flow is judged: it must "
+      "go from the program's only source statement to its only sink statement, only when a matching source+sink rule pair exists, "
+      "only for programs whose sink argument depends on the source flow-insensitively (carry / overwritten, not cut); "
+      "flows(R) must be contained in flows(R + extra rules / neutral restrictions).",
+      "Dependence class known by construction and cross-checked with CPython label tracking in C10. Small scope (<=1 link).",
+      "bounded exhaustive enumeration of programs x rule sets, rule-matching model + construction-known dependence oracle", "DESIGN.md §2 C11")
+
 check("C14", "exploration",
       "Finite configuration product of real separate processes (the lian CLI behind a launcher that only adds a pure yaml parse "
       "cache): 8 multi-file projects (6 Python incl. taint flows, callbacks, inheritance, packages; JavaScript; Java) x hash seeds "
